@@ -182,6 +182,23 @@ def step (st : St) (op res : String) : St × List String :=
     let obs : F4Res := if res == "ok" then .ok else .doubleFree
     let mon := Mon4.step s e out (.free x obs)
     (.v4mon s e mon.1, "br:free4.monitor-only" :: verdictMsgs mon.2 s!"free {ip} -> {res}")
+  | ["acap6", _, poolLen, page], _ =>
+    -- a pool filled to the brim outside the trace (harness/alloc.go): C05's capacity clause on the
+    -- observation — exactly N = 2^(page - poolLen) allocations succeed, all different, in the pool,
+    -- aligned, of the configured length; then 'no address available'; a freed block is handed out again
+    match poolLen.toNat?, page.toNat? with
+    | some pl, some pg =>
+      let n := 2 ^ (pg - pl)
+      let toks := words res
+      let get (k : String) : String := ((toks.find? (·.startsWith (k ++ "="))).map (fun t => (t.drop (k.length + 1)).toString)).getD "?"
+      let fails :=
+        (if get "n" == toString n then [] else [s!"FAIL C05 a pool of {n} blocks satisfied {get "n"} allocations before refusing"]) ++
+        (if get "bad" == "-" then [] else
+          [s!"FAIL C05 large pool: {get "bad"}"] ++ (if (get "bad").startsWith "dup" then [s!"FAIL C04 large pool: {get "bad"}"] else [])) ++
+        (if get "refusal" == "noaddr" then [] else [s!"FAIL C05 a full pool refuses with another error than 'no address available'"]) ++
+        (if get "refill" == "ok" || get "refill" == "-" then [] else ["FAIL C06 large pool: a freed block was not handed out again (or the pool was not full afterwards)", "FAIL C05 large pool: a freed block was not handed out again (or the pool was not full afterwards)"])
+      (st, "br:acap6" :: (if fails.isEmpty then [] else "DIVERGE dom model=exact-capacity" :: fails))
+    | _, _ => (st, ["DIVERGE drift unparsed-op"])
   | "arace" :: _, .none => (st, ["br:skipped.no-allocator"])
   | "arace" :: _, _ =>
     -- rounds of callers naming the same block at once (harness/alloc.go): the blocks handed out in a
